@@ -28,7 +28,8 @@ def _factory(params, env=None):
         _lab.reset()
         lab = Lab(params["flavour"])
         variant = params["variant"]
-        lab.user(lambda: (lab.p[0].create("/L/keep", io.BytesIO(b"keep")), lab.p[0].create("/L/a", io.BytesIO(b"base-a")), lab.p[0].mkdir("/L/d")))
+        if not params.get("empty"):       # "empty": the very first session, nothing synchronised yet (persisted cursors are still at their first values)
+            lab.user(lambda: (lab.p[0].create("/L/keep", io.BytesIO(b"keep")), lab.p[0].create("/L/a", io.BytesIO(b"base-a")), lab.p[0].mkdir("/L/d")))
         if lab.drain() is None:
             return {"ok": False, "info": {"why": "base tree did not become quiet"}, "sigdata": {"symptom": "base-not-quiet"}}
         h = History(lab, e)
@@ -105,13 +106,22 @@ def _factory(params, env=None):
             lab.restart()
             h.hist.append("RESTART:" + variant)
             h.drain()
+            if params.get("again"):
+                # a third engine generation over the storage the second one left behind: stop, one more offline operation, restart (storage untouched)
+                lab.stop_engine()
+                side3 = e.choose("side", 2)
+                op3 = OPS[e.choose("op", len(OPS))]
+                user(side3, op3, 9)
+                lab.restart()
+                h.hist.append("RESTART-AGAIN")
+                h.drain()
             tl, tr = lab.tree(0), lab.tree(1)
             info = dict(local=show(tl), remote=show(tr), variant=variant)
             after = lab.calls[n0:]
             re = [c for c in after if c[1] in ("create", "upload") and any("keep" in str(x) for x in c[2])]
             if re:
                 raise Fail("a file that was in sync and untouched was transferred again after the restart", calls=re[:3], symptom="retransfer", **info)
-            if tl.get("/keep") != b"keep" or tr.get("/keep") != b"keep":
+            if not params.get("empty") and (tl.get("/keep") != b"keep" or tr.get("/keep") != b"keep"):
                 raise Fail("an untouched synchronised file changed across the restart", symptom="keep-changed", **info)
             if variant == "intact":
                 if strip_conflicted(tl) != strip_conflicted(tr):
@@ -168,6 +178,16 @@ def jobs(tier):
         # first start over accounts that already hold content: a stop request inside the start-up walk, then a restart
         out.append({"harness": "cold-stop", "params": {"flavour": f, "mode": "stop", "pre": 1 if q else 2, "post": 1 if q else 2, "maxobj": 5},
                     "label": "%s/cold-start/stop-inside-walk" % f})
+        # three generations: the second restart happens over whatever the first one (with the cursor removed or rejected) wrote
+        for v in VARIANTS:
+            if v != "intact" and (not q or f == "oid"):
+                for side in ((0,) if q else (0, 1)):
+                    out.append({"harness": "restart", "params": {"flavour": f, "variant": v, "maxcut": 1, "offline": 1, "first": [side, "create_b"], "again": True},
+                                "label": "%s/%s/three-generations/first=%d:create_b" % (f, v, side)})
+        # the very first session: stop after 0..3 steps of an otherwise empty pair, one offline operation on either side, restart over intact storage
+        for side in (0, 1):
+            out.append({"harness": "restart", "params": {"flavour": f, "variant": "intact", "maxcut": 3, "offline": 1, "first": [side, "create_b"], "empty": True},
+                        "label": "%s/intact/first-session/first=%d:create_b" % (f, side)})
         for v in VARIANTS:
             for side in (0, 1):
                 for op in OPS:
